@@ -464,6 +464,7 @@ def _rule_R6(text, args):
     n = 0
     for a in args:
         frm, _, to = a.partition("=")
+        frm, to = frm.replace("%20", " "), to.replace("%20", " ")     # (%20 = a space inside a from / to text)
         rx = re.compile(r"(?<![A-Za-z0-9_:])" + re.escape(frm) + r"(?![A-Za-z0-9_])")
         text, k = rx.subn(to, text)
         n += k
